@@ -371,6 +371,10 @@ def run(db, rep, tier):
     # R4: completion records of run/resume are never asserted to be non-throwing (shared with C08-R4)
     import c08
     c08.r4(db, rep)
+    # R5 = C04-R9: the sibling overrides of contains()'s visitor agree (a wrong Contains answer lets an invalid `super`
+    # through the early errors and drops a needed function environment: EnginePanic at run time)
+    import c04
+    c04.r9(db, rep)
     rep.assumptions += [
         "R2 covers the always-on arithmetic panics only; debug-only overflow asserts (Add/Sub/Mul) are not decided",
         "asserts in const/static initialisers are compile-time (CTFE) and cannot fire at run time",
